@@ -56,7 +56,7 @@ const Prelude = `(set-option :produce-models true)
 `
 
 // specDecls renders spec function declarations and axioms.
-func (e *Engine) specDecls() string {
+func (e *Engine) specDecls(pkgPath string) string {
 	var sb strings.Builder
 	for _, ln := range e.RawSMT {
 		sb.WriteString(ln + "\n")
@@ -67,6 +67,9 @@ func (e *Engine) specDecls() string {
 		sf := e.SpecFuncs[name]
 		if sf.Body != nil {
 			continue
+		}
+		if sf.PkgPath != "" && sf.PkgPath != pkgPath && strings.HasPrefix(sf.PkgPath, "vbasis/") {
+			continue // schema-derived functions of another generated package
 		}
 		var ps []string
 		for _, p := range sf.Params {
@@ -92,7 +95,7 @@ func (e *Engine) specDecls() string {
 		rs, _ := rc.specSort(sf.Ret)
 		fmt.Fprintf(&sb, "(declare-fun %s (%s) %s)\n", sym(sf.Name), strings.Join(ps, " "), rs)
 	}
-	for _, ln := range e.RawSMTLate {
+	for _, ln := range e.RawSMTLate[pkgPath] {
 		sb.WriteString(ln + "\n")
 	}
 	for _, ax := range e.Axioms {
@@ -186,7 +189,22 @@ var (
 
 // Discharge solves all obligations in parallel.
 func (e *Engine) Discharge(obls []*Obligation, par int) {
-	decls := e.specDecls()
+	declCache := map[string]string{}
+	var declMu sync.Mutex
+	declsFor := func(o *Obligation) string {
+		pp := ""
+		if o.fs != nil && o.fs.fn != nil && o.fs.fn.Pkg != nil {
+			pp = o.fs.fn.Pkg.Pkg.Path()
+		}
+		declMu.Lock()
+		defer declMu.Unlock()
+		d, ok := declCache[pp]
+		if !ok {
+			d = e.specDecls(pp)
+			declCache[pp] = d
+		}
+		return d
+	}
 	if e.WorkDir == "" {
 		d, _ := os.MkdirTemp("", "gocv")
 		e.WorkDir = d
@@ -201,7 +219,7 @@ func (e *Engine) Discharge(obls []*Obligation, par int) {
 		go func() {
 			defer wg.Done()
 			for o := range ch {
-				o.Query = e.BuildQuery(o, decls)
+				o.Query = e.BuildQuery(o, declsFor(o))
 				h := sha1.Sum([]byte(o.ID))
 				o.Result = smt.Solve(e.WorkDir, fmt.Sprintf("q_%x", h[:8]), o.Query, e.TimeoutS)
 			}
